@@ -12,6 +12,7 @@ import (
 	"go.opentelemetry.io/collector/component"
 	"go.opentelemetry.io/collector/component/componenttest"
 	"go.opentelemetry.io/collector/config/configretry"
+	"go.opentelemetry.io/collector/consumer/consumererror"
 	"go.opentelemetry.io/collector/exporter"
 	"go.opentelemetry.io/collector/exporter/exporterhelper"
 	"go.opentelemetry.io/collector/exporter/exporterhelper/internal/queuebatch"
@@ -75,7 +76,9 @@ func fullConfig(tp *simkit.Tape, prop string) fullCfg {
 	c.Signal = adapters[tp.Draw(3)].name
 	c.Persistent = tp.Chance(1, 3)
 	if c.Persistent {
-		c.Batch = "none"
+		// sending_queue::batch needs an items/bytes sizer and the persistent queue a requests sizer, but the legacy
+		// WithBatcher option combines with a persistent queue
+		c.Batch = []string{"none", "legacy"}[tp.Weighted(2, 1)]
 		c.Sizer = "requests"
 	} else {
 		c.Batch = []string{"none", "queue", "legacy"}[tp.Weighted(2, 2, 1)]
@@ -150,6 +153,9 @@ func (s *fullSim) build(inc *Incarnation) (simExporter, error) {
 	rc.Multiplier = 1
 	rc.RandomizationFactor = 0
 	rc.MaxElapsedTime = 20 * time.Second
+	if cfg.Persistent {
+		rc.MaxElapsedTime = 0 // never gives up: a transient answer is then never a final outcome (as in C01)
+	}
 	opts = append(opts, exporterhelper.WithRetry(rc), exporterhelper.WithTimeout(exporterhelper.TimeoutConfig{Timeout: time.Duration(cfg.TimeoutS) * time.Second}))
 	set := exporter.Settings{ID: component.MustNewID("simexp"), TelemetrySettings: s.tel.NewTelemetrySettings(), BuildInfo: component.NewDefaultBuildInfo()}
 	return s.ad.newExp(set, s.be.push, opts...)
@@ -281,6 +287,7 @@ func (s *fullSim) answerChoices(ch *[]simkit.Choice) {
 						keep[k] = true
 					}
 				}
+				c.Kept = keep
 				perr, _ := s.ad.partial(c.Payload, keep)
 				r.Count("fault.backend_partial")
 				s.anyFailure = true
@@ -417,27 +424,61 @@ func (s *fullSim) finalChecks() {
 		if err := exp2.Start(context.Background(), host); err != nil {
 			panic(err)
 		}
+		flushWait := time.Duration(s.cfg.FlushS+1) * time.Second
+		idle := 0
+		for i := 0; i < 400 && idle < 3; i++ {
+			r.Settle()
+			if ids := be2.gate.Parked(); len(ids) > 0 {
+				be2.answer(ids[0], nil)
+				idle = 0
+				continue
+			}
+			idle++
+			time.Sleep(flushWait) // a partial batch of the drain incarnation leaves by its flush timeout
+		}
+		sd := simkit.Go("drain-shutdown", func(t *simkit.Task) { t.Err = exp2.Shutdown(context.Background()) })
 		for i := 0; i < 200; i++ {
 			r.Settle()
-			ids := be2.gate.Parked()
-			if len(ids) == 0 {
+			if sd.Done() {
 				break
 			}
-			be2.answer(ids[0], nil)
+			if ids := be2.gate.Parked(); len(ids) > 0 {
+				be2.answer(ids[0], nil)
+			} else {
+				time.Sleep(flushWait)
+			}
 		}
-		r.Settle()
 		for _, c := range be2.snapshot() {
 			for id := range c.Items {
 				stored[id] = true
 			}
 		}
-		sd := simkit.Go("drain-shutdown", func(t *simkit.Task) { t.Err = exp2.Shutdown(context.Background()) })
-		r.Settle()
 		if !sd.Done() {
 			r.Failf("liveness", "drain-incarnation-shutdown", "the drain incarnation did not shut down")
 		}
 	}
 	storedItems := int64(len(stored))
+	// which items have finished export with a final outcome (success, permanent failure, or any failure without retry)
+	final := map[string]bool{}
+	for _, c := range calls {
+		if !c.Answered {
+			continue
+		}
+		for id := range c.Items {
+			switch {
+			case c.Outcome == nil:
+				final[id] = true
+			case c.Kept != nil:
+				if !c.Kept[id] {
+					final[id] = true // delivered part of a partial failure
+				} else if !s.cfg.Retry {
+					final[id] = true
+				}
+			case consumererror.IsPermanent(c.Outcome) || !s.cfg.Retry:
+				final[id] = true
+			}
+		}
+	}
 
 	if s.prop == "C03" {
 		for _, q := range s.reqs {
@@ -448,8 +489,8 @@ func (s *fullSim) finalChecks() {
 				n := attempts[id]
 				switch {
 				case s.cfg.Persistent:
-					if n == 0 && !stored[id] {
-						r.Failf("drain", "persistent-lost", "item %s of request %d (accepted before shutdown) was neither exported nor left in storage", id, q.n)
+					if !final[id] && !stored[id] {
+						r.Failf("drain", "persistent-lost", "item %s of request %d (accepted before shutdown) has neither finished export with a final outcome (attempts: %d) nor is it still in storage", id, q.n, n)
 					}
 				default:
 					if n == 0 {
